@@ -284,6 +284,32 @@ func runF(op string, in M) (M, M, M) {
 		}
 		rem := new(big.Int).Mod(pow3_243, new(big.Int).Add(lx, big.NewInt(1)))
 		return M{"s": s, "target": vLimbs(th), "rem": vLimbs(rem), "panic": p}, M{}, M{}
+	case "pow2.probe":
+		// white box, used by the directed escalation only: the largest target score (same message length) for which
+		// sufficientTrailingZeros still gives the value it gives for the target handed in - where an unsound value shows most
+		ln, target := vIntOf(in["len"]), vFromLimbs(in["target"]).Uint64()
+		data := make([]byte, ln-8)
+		hi := target
+		p := vCatch(func() {
+			s0 := vSufficient(data, target)
+			lim := new(big.Int).Exp(big.NewInt(3), big.NewInt(int64(s0+1)), nil)
+			lim.Div(lim, big.NewInt(int64(ln)))
+			top := target
+			if lim.IsUint64() && lim.Uint64() > target {
+				top = lim.Uint64()
+			}
+			lo := target
+			for lo < top { // largest t in [target, top] with the same answer (the answer is monotone in t)
+				mid := lo + (top-lo+1)/2
+				if vSufficient(data, mid) == s0 {
+					lo = mid
+				} else {
+					top = mid - 1
+				}
+			}
+			hi = lo
+		})
+		return M{"target_hi": vLimbsU64(hi), "panic": p}, M{}, M{}
 	case "pow2.check":
 		lx := vFromLimbs(in["lx"])
 		ln, target := vIntOf(in["len"]), vFromLimbs(in["target"]).Uint64()
@@ -337,7 +363,7 @@ var vSufficient func([]byte, uint64) int
 var vTargetHash func([]byte, uint64) *big.Int
 var vCheck func(l, h *[consts.HashTrinarySize]uint, s int, t *big.Int) int
 
-func vWBOp(op string) bool { return op == "pow2.params" || op == "pow2.check" }
+func vWBOp(op string) bool { return op == "pow2.params" || op == "pow2.check" || op == "pow2.probe" }
 
 func TestVerifDriver(t *testing.T) {
 	rec := vOpen()
@@ -463,4 +489,19 @@ func TestVerifDriver(t *testing.T) {
 		emit("pow2.check", in)
 		emit("pow2.params", M{"lx": vLimbs(lx), "len": ln, "target": vLimbsU64(tg)})
 	}
+	// white box: the thresholds for products just above, at and just below every power of three up to 3^40, and inside
+	// each decade (length 9, so that the product is a multiple of 9 near the wanted value)
+	p3 := uint64(1)
+	for k := 1; k <= 40; k++ {
+		p3 *= 3
+		for _, want := range []uint64{p3 - 9, p3, p3 + 9, p3 + p3/100 + 9, p3 + p3/2} {
+			if want/9 == 0 || want/9 > (1<<64-1)/9 {
+				continue
+			}
+			tg := want / 9
+			lx := new(big.Int).Mul(new(big.Int).SetUint64(tg), big.NewInt(9))
+			emit("pow2.params", M{"lx": vLimbs(lx), "len": 9, "target": vLimbsU64(tg)})
+		}
+	}
+
 }
